@@ -69,6 +69,16 @@ _MONTH_FULL = list(_MONTH_ABBREV_TO_FULL.values())
 _LOWERCASE_FULL = list(m.lower() for m in _MONTH_FULL)
 
 
+def _unknown_month(number: int) -> str:
+    """Log reason for a number which is not a month.
+
+    The number itself is only spelled out if it is small: Python refuses to
+    convert very large ints to text."""
+    if -(10**6) < number < 10**6:
+        return f"month-field unchanged - unknown month {number}"
+    return "month-field unchanged - unknown month (number too large to be shown)"
+
+
 def _digits_to_int(digits: str) -> Union[str, int]:
     """The int value of a string of decimal digits, or the string itself
     if it has more digits than ``int`` accepts (certainly not a month)."""
@@ -101,10 +111,7 @@ class MonthLongStringMiddleware(_MonthInterpolator):
             v = _digits_to_int(v)
         if isinstance(v, int):
             if v < 1 or v > 12:
-                return (
-                    month_field.value,
-                    f"month-field unchanged - unknown month {v}",
-                )  # Nothing we can do here
+                return month_field.value, _unknown_month(v)  # Nothing we can do here
             return _MONTH_FULL[v - 1], "transformed int-month to str-month"
         elif isinstance(v, str):
             v_lower = v.lower()
@@ -146,7 +153,7 @@ class MonthAbbreviationMiddleware(_MonthInterpolator):
         if isinstance(v, int):
             if v < 1 or v > 12:
                 # Nothing we can do here
-                return month_field.value, f"month-field unchanged - unknown month {v}"
+                return month_field.value, _unknown_month(v)
             return _MONTH_ABBREV[v - 1], "transformed int-month to abbreviated month"
         elif isinstance(v, str):
             v_lower = v.lower()
